@@ -63,6 +63,7 @@ class Reconnector(object):
     def __init__(self, url, cb, args, kwargs):
         self._url = url
         self._active = False
+        self._stopped = False
         self._observer = (cb, args, kwargs)
         self._delay = self.initialDelay
         self._timer = None
@@ -72,6 +73,11 @@ class Reconnector(object):
 
     def startConnecting(self, tub):
         self._tub = tub
+        if self._stopped:
+            # stopConnecting() was called while we were still queued, waiting
+            # for the Tub to start: honor it
+            self._tub._removeReconnector(self)
+            return
         if self.verbose:
             log.msg("Reconnector starting for %s" % self._url)
         self._active = True
@@ -81,6 +87,7 @@ class Reconnector(object):
         if self.verbose:
             log.msg("Reconnector stopping for %s" % self._url)
         self._active = False
+        self._stopped = True
         if self._timer:
             self._timer.cancel()
             self._timer = False
